@@ -192,7 +192,7 @@ RECURSIVE RawAt(_, _, _, _, _, _)
 RawAt(C, t, path, parentId, fname, args) ==
   IF path \in DOMAIN C.overlay /\ C.overlay[path].o \notin {"rt", "emptyd"} THEN
      LET o == C.overlay[path] IN
-     IF o.o = "falsy" THEN [r |-> "leaf", v |-> FalsyOf(Named(t))]
+     IF o.o \in {"falsy", "blank"} THEN [r |-> "leaf", v |-> FalsyOf(Named(t))]
      ELSE IF o.o = "len" THEN
         LET it == IF IsNN(t) THEN Tail(Tail(t)) ELSE Tail(t) IN
         [r |-> "list", v |-> [i \in 1..o.n |-> RawAt(C, it, Append(path, Idx(i - 1)), parentId, fname, args)]]
@@ -231,6 +231,9 @@ Pos(path, t) == [path |-> path, type |-> t]
 Both(r, rest) ==
   Res(IF r.st = "fail" \/ rest.st = "fail" THEN "fail" ELSE "ok", Null,
       r.errs \cup rest.errs, r.up \cup rest.up, r.nulls \cup rest.nulls, r.calls \o rest.calls, r.pos \cup rest.pos)
+
+\* output coercion of leaves: identity except for the custom scalar Cs ("" -> null, t -> "cs:" t)
+OutC(n, v) == IF n = "Cs" /\ v.t = "S" THEN (IF v.v = "" THEN Null ELSE Str("cs:" \o v.v)) ELSE v
 
 RECURSIVE ExecSel(_, _, _, _, _), ExecEntries(_, _, _, _, _), ExecField(_, _, _, _, _), Complete(_, _, _, _, _), CompleteItems(_, _, _, _, _, _)
 
@@ -271,7 +274,7 @@ Complete(C, t, raw, path, ids) ==
      IF raw.r # "list" THEN FailAt(path, ids)
      ELSE CompleteItems(C, Tail(t), raw.v, path, ids, 1)
   ELSE IF IsLeaf(Named(t)) THEN
-     IF raw.r = "leaf" THEN OkV(raw.v) ELSE FailAt(path, ids)
+     IF raw.r = "leaf" THEN OkV(OutC(Named(t), raw.v)) ELSE FailAt(path, ids)
   ELSE \* composite
      IF raw.r # "obj" THEN FailAt(path, ids)
      ELSE LET tn == RTOf(C, t, raw) IN
